@@ -356,8 +356,9 @@ def main(argv=None):
                             known_findings_hit=known_hit, forbidden_tokens=gate["forbidden"],
                             modelled_not_verified=getattr(mod, "MODELLED", "")),
               assumptions=tb, wall_s=round(time.time() - t0, 1), violations=len(violations))
-    os.makedirs(os.path.join(ROOT, "evidence"), exist_ok=True)
-    json.dump(ev, open(os.path.join(ROOT, "evidence", a.prop + ".json"), "w"), indent=1, default=str)
+    if not a.no_gate and not a.n:      # development runs (--no-gate / --n) never overwrite the evidence of a full run
+        os.makedirs(os.path.join(ROOT, "evidence"), exist_ok=True)
+        json.dump(ev, open(os.path.join(ROOT, "evidence", a.prop + ".json"), "w"), indent=1, default=str)
     for l in out_lines: print(l)
     print("%s tier=%s cases=%d check_ok=%d corr_same=%d illformed=%d nontrivial=%d theorems=%d/%d known=%s violations=%d wall=%.0fs"
           % (a.prop, a.tier, stats["evaluations"], stats["verdict_ok"], stats["corr_same"], stats["illformed"], len(stats["nontrivial"]),
